@@ -4116,6 +4116,23 @@ func (a *Association) sendPayloadData(ctx context.Context, chunks []*chunkPayloa
 					getAssociationStateString(state))
 			}
 		}
+	}
+
+	// The stream may have been closed since the caller looked at its state (and
+	// while this call was waiting): Close moves the stream out of the open state
+	// before it queues the end-of-stream marker under this lock. Data queued behind
+	// the marker would be sent after the reset request and never reach the reader.
+	if len(chunks) > 0 && chunks[0].stream != nil && chunks[0].stream.State() != StreamStateOpen {
+		if a.blockWrite {
+			// this writer may have consumed the notification another one is waiting for
+			a.notifyBlockWritable()
+		}
+		a.lock.Unlock()
+
+		return ErrStreamClosed
+	}
+
+	if a.blockWrite {
 		a.writePending = true
 	}
 
